@@ -365,6 +365,57 @@ def beta_reduce_local_defs(fn: ast.FunctionDef) -> bool:
     return changed
 
 
+def collapse_inlining_aliases(fn: ast.FunctionDef) -> bool:
+    """`addresses = addresses__i` left behind by inlining (the callee's local was renamed because the caller uses the same
+    name for the result): when both names are bound exactly once, the caller's name stands for the callee's list - the
+    copy is dropped and the callee's local takes the caller's name."""
+    import re as _re_
+
+    changed = False
+    stores: Dict[str, int] = {}
+    for n in ast.walk(fn):
+        if isinstance(n, ast.Name) and isinstance(n.ctx, (ast.Store, ast.Del)):
+            stores[n.id] = stores.get(n.id, 0) + 1
+    params = {a.arg for a in fn.args.args + fn.args.kwonlyargs}
+    ren: Dict[str, str] = {}
+    drop: List[ast.stmt] = []
+    for n in ast.walk(fn):
+        tg, v = None, None
+        if isinstance(n, ast.Assign) and len(n.targets) == 1 and isinstance(n.targets[0], ast.Name) and isinstance(n.value, ast.Name):
+            tg, v = n.targets[0].id, n.value.id
+        elif isinstance(n, ast.AnnAssign) and isinstance(n.target, ast.Name) and isinstance(n.value, ast.Name):
+            tg, v = n.target.id, n.value.id
+        if tg and v and _re_.search(r"(__i|__p)$|^(drained__|acc__|arg__)", v) and stores.get(tg) == 1 and stores.get(v) == 1 and tg not in params and v not in params and v not in ren and tg not in ren.values():
+            ren[v] = tg
+            drop.append(n)
+    if not ren:
+        return False
+
+    def block(stmts: List[ast.stmt]) -> List[ast.stmt]:
+        out = []
+        for st in stmts:
+            if any(st is d for d in drop):
+                continue
+            for fld in ("body", "orelse", "finalbody"):
+                v = getattr(st, fld, None)
+                if isinstance(v, list) and v and isinstance(v[0], ast.stmt):
+                    setattr(st, fld, block(v) or [ast.Pass()])
+            if isinstance(st, ast.Try):
+                for h in st.handlers:
+                    h.body = block(h.body) or [ast.Pass()]
+            out.append(st)
+        return out
+
+    fn.body = block(fn.body)
+    for n in ast.walk(fn):
+        if isinstance(n, ast.Name) and n.id in ren:
+            n.id = ren[n.id]
+            changed = True
+    if changed:
+        ast.fix_missing_locations(fn)
+    return changed
+
+
 def beta_reduce_module_helpers(ctx: Ctx, f: Func, fn: ast.FunctionDef) -> bool:
     """`_first(x)` with `_first` a private function of the same module whose body is one `return E` (no defaults, no
     star parameters, no call-by-keyword) and plain arguments: the call is E[param := argument], wherever it stands."""
@@ -1414,6 +1465,7 @@ def normalised(ctx: Ctx, f: Func, steps: str = "delegation,tailcalls,calls,unrol
             round_changed |= inline_call_statements(ctx, f, fn)
         if "valuecalls" in want:
             round_changed |= inline_value_calls(ctx, f, fn)
+            round_changed |= collapse_inlining_aliases(fn)
         if "localcalls" in want:
             round_changed |= beta_reduce_local_defs(fn)
             round_changed |= beta_reduce_module_helpers(ctx, f, fn)
